@@ -26,6 +26,14 @@ ASSUMPTIONS = ["part conditions containing not-judged (vacuous-keys) items make 
 def strata(tier):
     for p, d in PC.systematic_paths(tier):
         yield {"path": p, "doc": d}
+    # documents whose equal containers are one shared object: every occurrence is walked
+    for parts in ([{"p": "mol"}, {"p": "mol"}], [{"p": "mol"}, {"p": "mol"}, {"p": "mol"}], [{"p": "map"}, {"p": "prim", "v": "v"}, {"p": "list"}],
+                  [{"p": "prim", "v": "rows"}, {"p": "list"}, {"p": "list"}], [{"p": "prim", "v": "c"}, {"p": "list"}, {"p": "mol"}],
+                  [{"p": "map"}, {"p": "map"}, {"p": "prim", "v": "k"}], [{"p": "map"}, {"p": "prim", "v": "t"}, {"p": "prim", "v": 1}],
+                  [{"p": "mol"}, {"p": "mol"}, {"p": "mol"}, {"p": "mol"}]):
+        yield {"path": PC.mkpath(parts), "doc": G.SHARED_DOC, "alias": True}
+        yield {"path": PC.mkpath(parts), "doc": G.SHARED_DOC}
+        yield {"path": PC.mkpath(parts[1:]), "doc": [G.SHARED_DOC["a"], 5, G.SHARED_DOC["a"], G.SHARED_DOC["c"]], "alias": True}
 
 
 def budget(tier):
@@ -34,7 +42,10 @@ def budget(tier):
 
 def gen(rng, tier):
     p, d = PC.random_path_case(rng, tier)
-    return {"path": p, "doc": d}
+    out = {"path": p, "doc": d}
+    if rng.random() < 0.1:
+        out["alias"] = True
+    return out
 
 
 def required(m, tier):
@@ -78,6 +89,9 @@ def run(case, ctx):
     import valida
     import valida.datapath as DP
     pterm, doc = case["path"], case["doc"]
+    if case.get("alias"):
+        doc = G.alias_containers(doc)  # equal containers are one shared object (a DAG)
+        ctx.count("documents-with-shared-containers")
     sig = kinds_sig(pterm)
     ok, parts = call(lambda: [build.part_obj(p) for p in pterm["parts"]])
     if not ok:
@@ -167,6 +181,28 @@ def run(case, ctx):
                         f"the edited document gives {e3!r}; path={pterm}")
     except M.Undefined:
         pass
+    # history: a path bound to the caller's document; the caller adds / removes top-level entries between two look-ups
+    d4 = M.deep_copy(doc)
+    okb, pb = call(lambda: DP.DataPath(*[build.part_obj(q) for q in pterm["parts"]], source_data=d4))
+    if okb:
+        call(pb.get_data)
+        if type(d4) is dict:
+            d4["added-later"] = {"a": [1, {"a": 2}], "v": [3]}
+            if len(d4) > 2:
+                del d4[next(iter(d4))]
+        else:
+            d4.append({"a": [1, {"a": 2}], "v": [3]})
+            if len(d4) > 2:
+                del d4[0]
+        try:
+            e4 = M.expected_get(pterm, d4)
+            ok, g4 = call(pb.get_data)
+            ctx.count("entry:bound-path-after-top-level-edit")
+            if not ok or canon(g4) != canon(e4):
+                ctx.violate(f"C03/history/{sig}", f"a bound path, after its document gained / lost top-level entries, resolves to {g4!r}; "
+                            f"the edited document gives {e4!r}; path={pterm}")
+        except M.Undefined:
+            pass
     for name, detail in mon.CONTRACTS.take():
         ctx.violate(f"C03/contract:{name}", detail)
     if info:
